@@ -621,6 +621,15 @@ def _pat_hids(p):
     return out
 
 
+def _callee_guards(ctx, cg, members, callee, caller):
+    """the callee is another function of the cycle and every call it makes back into the cycle is on the fresh side of a
+    visited-set test that records the node before descending"""
+    if callee is None or callee.key == caller.key or callee.from_macro:
+        return False
+    sites = [c_ for t_ in members for c_ in cg.sites.get((callee.key, t_), [])]
+    return bool(sites) and all(_visited_guard(ctx, callee, c_)[0] is True for c_ in sites)
+
+
 @rule('REC-GUARD', 'REACH-FRAGMENT')
 def rule_rec_guard(ctx):
     obs = []
@@ -679,6 +688,9 @@ def rule_rec_guard(ctx):
                         obs.append(ok('REC-GUARD', inst, 'descends into the sub-selection of a selection (a tree: each selection has one parent)', loc))
                         continue
                     else:
+                        if _callee_guards(ctx, cg, members, callee, fn):
+                            obs.append(ok('REC-GUARD', inst, 'hands an id to %s, whose own recursive calls are all behind its visited-set test' % short(callee.path), loc))
+                            continue
                         obs.append(bad('REC-GUARD', inst, 'cannot classify the recursion (arguments derive from %s)' % sorted(fields)[:6], loc,
                                        'possibly unbounded recursion'))
                         continue
@@ -710,6 +722,8 @@ def rule_rec_guard(ctx):
                             vg, vwhy = True, _visited_guard(ctx, fn, pool_nodes[0])[1] + ' where the reference is taken'
                     if vg:
                         obs.append(ok('REC-GUARD', inst, '%s; %s' % (kind, vwhy), loc))
+                    elif _callee_guards(ctx, cg, members, callee, fn):
+                        obs.append(ok('REC-GUARD', inst, '%s; the visited-set test sits in %s, in front of every recursive call it makes' % (kind, short(callee.path)), loc))
                     else:
                         obs.append(bad('REC-GUARD', inst, 'recursion %s without a visited-set guard' % kind, loc,
                                        'a reference cycle in the input recurses without bound: stack overflow aborts the compiler process'))
